@@ -21,8 +21,17 @@ From DV Require Import Base.Prelude Base.Int Gen.Consts.
 Local Open Scope N_scope.
 
 Definition len {A} (l : list A) : N := N.of_nat (length l).
-Definition u32 (x : N) : N := x mod 2 ^ 32.
+Definition u32 (x : N) : N := x mod 4294967296.   (* 2^32 *)
 Definition sub {A} (l : list A) (i n : N) : list A := firstn (N.to_nat n) (skipn (N.to_nat i) l).
+(* l[i] with an index that may be any 32- or 64-bit value: None = index out of range *)
+Fixpoint nthN_big {A} (l : list A) (i : N) : option A :=
+  match l with
+  | [] => None
+  | x :: r => if i =? 0 then Some x else nthN_big r (i - 1)
+  end.
+(* same function; small indices take the unary route, which evaluates much faster *)
+Definition nthN {A} (l : list A) (i : N) : option A :=
+  if i <? 65536 then nth_error l (N.to_nat i) else nthN_big l i.
 Fixpoint sumN (l : list N) : N := match l with [] => 0 | x :: r => x + sumN r end.
 
 (* voxels of one sub-block: SubBlockSize^3 = 512 *)
@@ -63,6 +72,13 @@ Fixpoint bits_loop (fuel : nat) (n : N) : N :=
   end.
 Definition bits_for (n : N) : N := if n <? 2 then 0 else bits_loop 17 (n - 1).
 
+(* 2^k, tabulated for the shifts that occur (N.pow is slow to evaluate) *)
+Definition pow2 (k : N) : N :=
+  match k with
+  | 0 => 1 | 1 => 2 | 2 => 4 | 3 => 8 | 4 => 16 | 5 => 32 | 6 => 64 | 7 => 128 | 8 => 256
+  | _ => 2 ^ k
+  end.
+
 (* getPackedValue(b, bitHead, bits): reads b[bytePos] and, when the value straddles a byte
    boundary, b[bytePos+1]; None = index out of range.  b & leftBitMask[k] = b mod 2^(8-k)
    (checked against the generated table in Proofs/Parse.v). *)
@@ -70,15 +86,15 @@ Definition get_packed (vals : bytes) (bithead bits : N) : option N :=
   let bytepos := bithead / 8 in
   let bitpos := bithead mod 8 in
   if bitpos + bits <=? 8 then
-    match nth_error vals (N.to_nat bytepos) with
-    | Some b0 => Some ((b0 mod 2 ^ (8 - bitpos)) / 2 ^ (8 - bitpos - bits))
+    match nthN vals bytepos with
+    | Some b0 => Some ((b0 mod pow2 (8 - bitpos)) / pow2 (8 - bitpos - bits))
     | None => None
     end
   else
-    match nth_error vals (N.to_nat bytepos), nth_error vals (N.to_nat (bytepos + 1)) with
+    match nthN vals bytepos, nthN vals (bytepos + 1) with
     | Some b0, Some b1 =>
       Some (if 16 <? bitpos + bits then 0
-            else ((b0 mod 2 ^ (8 - bitpos)) * 256 + b1) / 2 ^ (16 - bitpos - bits))
+            else ((b0 mod pow2 (8 - bitpos)) * 256 + b1) / pow2 (16 - bitpos - bits))
     | _, _ => None
     end.
 
@@ -147,12 +163,12 @@ Definition parse_block_fixed (data : bytes) : res block :=
   if (n_P_MaxSubBlockSize <? gx) || (n_P_MaxSubBlockSize <? gy) || (n_P_MaxSubBlockSize <? gz) then Err else
   if max_labels <? nl then Err else
   let nsub := u32 (gx * gy * gz) in
+  if nsub =? 0 then Err else
   let lb := nl * 8 in
   if L <? 16 + lb then Err else
   res_bind (gslice buf 16 (16 + lb)) (fun s1 =>
   res_bind (alias 8 16 s1) (fun labels =>
   if len labels <=? 1 then Ok (solid gx gy gz labels) else
-  if nsub =? 0 then Err else
   let pos := 16 + lb in
   let nbytes := nsub * 2 in
   if L <? pos + nbytes then Err else
@@ -214,10 +230,10 @@ Fixpoint load_loop (labels idx : list N) (n : nat) (i ipos : N) : res N :=
   match n with
   | O => Ok ipos
   | S n' =>
-    match nth_error idx (N.to_nat ipos) with
+    match nthN idx ipos with
     | None => Panic
     | Some ix =>
-      match nth_error labels (N.to_nat ix) with
+      match nthN labels ix with
       | None => Panic
       | Some _ => if i <? SB3 then load_loop labels idx n' (i + 1) (ipos + 1) else Panic
       end
@@ -239,10 +255,14 @@ Fixpoint volume_go (labels idx : list N) (vals : bytes) (nsb : list N) (ipos bp 
 Definition num_subblocks (b : block) : N := b_gx b * b_gy b * b_gz b.
 
 (* the loops run over gx*gy*gz sub-blocks and index NumSBLabels with the running number *)
-Definition view_volume (b : block) : res unit :=
+Definition view_calc (b : block) : res unit :=
   if len (b_labels b) <? 2 then Ok tt
   else if len (b_nsb b) <? num_subblocks b then Panic
   else volume_go (b_labels b) (b_idx b) (b_vals b) (sub (b_nsb b) 0 (num_subblocks b)) 0 0.
+(* MakeLabelVolume first allocates the voxel array and aliases it as []uint64: with no voxels
+   at all (a zero sub-block dimension) AliasByteToUint64 indexes an empty slice *)
+Definition view_volume (b : block) : res unit :=
+  if num_subblocks b =? 0 then Panic else view_calc b.
 
 (* GetPointLabels for one point: sub-block number k, voxel offset o (< 512) inside it *)
 Fixpoint point_go (labels idx : list N) (vals : bytes) (nsb : list N) (k o c ipos bp : N) : res unit :=
@@ -251,9 +271,9 @@ Fixpoint point_go (labels idx : list N) (vals : bytes) (nsb : list N) (k o c ipo
   | n :: rest =>
     if n =? 0 then point_go labels idx vals rest k o (c + 1) ipos bp
     else if n =? 1 then
-      match nth_error idx (N.to_nat ipos) with
+      match nthN idx ipos with
       | None => Panic
-      | Some ix => match nth_error labels (N.to_nat ix) with
+      | Some ix => match nthN labels ix with
                    | None => Panic
                    | Some _ => point_go labels idx vals rest k o (c + 1) (ipos + 1) bp
                    end
@@ -264,9 +284,9 @@ Fixpoint point_go (labels idx : list N) (vals : bytes) (nsb : list N) (k o c ipo
         if c =? k then
           match get_packed vals (bp + o * bits) bits with
           | None => Panic
-          | Some v => match nth_error idx (N.to_nat (ipos + v)) with
+          | Some v => match nthN idx (ipos + v) with
                       | None => Panic
-                      | Some ix => match nth_error labels (N.to_nat ix) with
+                      | Some ix => match nthN labels ix with
                                    | None => Panic
                                    | Some _ => Ok tt
                                    end
@@ -360,7 +380,7 @@ Fixpoint store_blocks (fx : bool) (fuel : nat) (s : bytes) (st : store) : store 
         | Panic => (st, Recovered)
         | Ok b =>
           let st' := sput st coord comp in
-          match view_volume b with
+          match view_calc b with
           | Panic => (st', Crashed)
           | _ => store_blocks fx f rest st'
           end
